@@ -24,7 +24,7 @@ ASSUMPTIONS = ["reference model: a Python dict from int to value",
                "a single absent key may be refused or answered with an empty result (the statement only demands refusal for vector lookups), never with a value",
                "per-key vector assignment is only issued with distinct keys (numpy leaves the winner of duplicate fancy-index writes unspecified)"]
 REQUIRED_FEATURES = ["all_keys_collide", "negative_key", "large_key", "unsigned_keys", "scalar_valued", "absent_key_colliding",
-                     "absent_key_empty_bucket", "vector_with_absent", "lazy_form_materialised", "bfs_depth2", "empty_query"]
+                     "absent_key_empty_bucket", "vector_with_absent", "lazy_form_materialised", "bfs_depth2", "empty_query", "one_element_vector"]
 BOUNDS = {"quick": "grid: every non-empty key subset of size <= 3 of {0,1,2,3,7,-1,-3,2**62} (int64), moduli {default,1,2,3,5,64}, 4 value forms; "
                    "the dtype list {int32,int8,uint8,uint64,python list} on 14 key sets; universe of 10 probe keys, all 100 pair queries. "
                    "bfs: 20 configurations, all histories of depth <= 2 over ~20 state-changing operations, full observation of every distinct state",
@@ -156,8 +156,11 @@ def observe_table(acc, t_factory, d, keys, mod, kdt, probe_keys, pairs, tag="", 
             acc.feature("absent_key_colliding" if (k % m) in buckets else "absent_key_empty_bucket")
             if not is_refused(o) and o != ():
                 acc.fail("absent-key-answered-with-a-value", (k, "refused or empty"), o, classifier=cl("get1-absent", [k]))
-    for q in pairs:
+    singles = [(k,) for k in probe_keys]
+    for q in singles + list(pairs):
         present = all(k in d for k in q)
+        if len(q) == 1:
+            acc.feature("one_element_vector")        # a vector of length one is still a vector: an absent key is refused
         for form in ("list", "array", "array64"):
             if form == "array":
                 if kdt is not None and not _fits(q, kdt):
